@@ -465,6 +465,54 @@ fn check_value(f: &Fields) -> CheckResult {
           return Err(format!("to_writer into a writer that takes at most {cap} byte(s) per call delivered {} of {} bytes: {:?}", sw.0.len(), j.len(), String::from_utf8_lossy(&sw.0[..sw.0.len().min(200)])));
         }
       }
+      // a value that has been serialised (and formatted) before keeps following its setters
+      {
+        let mut h = m.clone();
+        let _ = h.clone().to_json();
+        let _ = format!("{h:?}");
+        let mut want = f.clone();
+        let which = (f.mappings.len() + f.sources.len() * 3 + f.names.len() * 5) % 6;
+        match which {
+          0 => {
+            want.debug_id = Some("set-later".into());
+            h.set_debug_id(Some("set-later"));
+          }
+          1 => {
+            want.file = Some("later.js".into());
+            h.set_file(Some("later.js"));
+          }
+          2 => {
+            want.root = Some("later/root".into());
+            h.set_source_root(Some("later/root"));
+          }
+          3 => {
+            want.names.push("later".into());
+            h.set_names(want.names.clone());
+          }
+          4 => {
+            want.sources.push("later.js".into());
+            h.set_sources(want.sources.clone());
+          }
+          _ => {
+            want.contents.push("later content".into());
+            h.set_sources_content(want.contents.clone());
+          }
+        }
+        let j2 = h.clone().to_json().map_err(|e| format!("to_json after a setter failed: {e}"))?;
+        let mut w2 = vec![];
+        h.clone().to_writer(&mut w2).map_err(|e| format!("to_writer after a setter failed: {e}"))?;
+        if w2 != j2.as_bytes() {
+          return Err("to_writer and to_json disagree after a setter was called on an already serialised value".into());
+        }
+        let back = parse3(&j2)?.map_err(|e| format!("the document written after a setter is rejected: {e}"))?;
+        let mut want_back = want.clone();
+        if want_back.contents.iter().all(|c| c.is_empty()) {
+          want_back.contents.clear();
+        }
+        if back != want_back {
+          return Err(format!("a value serialised, then changed by setter #{which}, then serialised again reads back as {back:?}, expected {want_back:?}"));
+        }
+      }
       let v: serde_json::Value = serde_json::from_str(&j).map_err(|e| format!("an independent JSON parser rejects to_json() output {j:?}: {e}"))?;
       let obj = v.as_object().ok_or("to_json() is not an object")?;
       if obj.get("version") != Some(&serde_json::json!(3)) {
